@@ -800,6 +800,26 @@ pub fn perturbation(rng: &mut Rng, c: u32, l: u32) -> Vec<crate::sys::Op> {
     v
 }
 
+/// What only the API can pass in one draw() call: a string mixing printable characters with C0 /
+/// C1 / DEL / soft hyphen (zero width as they are, glyphs under CP437 / VAX42), composable pairs,
+/// conjoining jamo (L V T next to each other), singletons, sequences narrower as a string than
+/// character by character, sampled Unicode
+pub fn mixed_api_string(rng: &mut Rng) -> String {
+    let n = 2 + rng.usize(7);
+    let mut t = String::new();
+    for _ in 0..n {
+        match rng.below(8) {
+            0 => t.push(*rng.pick(&['\u{ad}', '\u{7f}', '\u{1}', '\u{18}', '\u{85}', '\u{9b}', '\u{0}', '\u{1f}'])),
+            1 => t.push_str(*rng.pick(&["a\u{301}", "e\u{301}", "\u{212b}", "\u{1112}\u{1161}\u{11ab}", "\u{1100}\u{1161}", "\u{1161}", "\u{37e}", "A\u{30a}", "\u{d55c}\u{11ab}", "\u{1611e}\u{1611e}"])),
+            2 => t.push(uchar(rng)),
+            3 => t.push_str(*rng.pick(&SEQUENCES[..])),
+            4 => t.push(*rng.pick(&COMBINING)),
+            _ => t.push((b'a' + rng.below(26) as u8) as char),
+        }
+    }
+    t
+}
+
 /// every listener call with boundary-biased arguments (API workloads)
 pub fn api_call(rng: &mut Rng, c: u32, l: u32) -> Call {
     use Call::*;
@@ -832,23 +852,7 @@ pub fn api_call(rng: &mut Rng, c: u32, l: u32) -> Call {
         12 => Tab,
         13 => CarriageReturn,
         14 | 15 | 16 => Draw(text_run(rng, 10)),
-        17 => {
-            // what only the API can pass in one call: a string mixing printable characters with
-            // C0 / C1 / DEL / soft hyphen (zero width as they are, glyphs under CP437 / VAX42),
-            // composable pairs, conjoining jamo, singletons
-            let n = 2 + rng.usize(7);
-            let mut t = String::new();
-            for _ in 0..n {
-                match rng.below(8) {
-                    0 => t.push(*rng.pick(&['\u{ad}', '\u{7f}', '\u{1}', '\u{18}', '\u{85}', '\u{9b}', '\u{0}', '\u{1f}'])),
-                    1 => t.push_str(*rng.pick(&["a\u{301}", "e\u{301}", "\u{212b}", "\u{1112}\u{1161}\u{11ab}", "\u{1161}", "\u{37e}", "A\u{30a}"])),
-                    2 => t.push(uchar(rng)),
-                    3 => t.push_str(*rng.pick(&SEQUENCES[..])),
-                    _ => t.push((b'a' + rng.below(26) as u8) as char),
-                }
-            }
-            Draw(t)
-        }
+        17 => Draw(mixed_api_string(rng)),
         18 => InsertCharacters(pc(rng)),
         19 => CursorUp(pl(rng)),
         20 => CursorDown(pl(rng)),
